@@ -34,6 +34,17 @@ CHECKS = {
               "implementation's state for well-formed configurations, and Examples show how it fails outside them."),
         note=COMMON_NOTE + "ipaddress is trusted; dotted-quad conversion is harness glue; reattach_interface modelled without proxy nic; netmask equality modelled on numbers.",
         design="§5 C18"),
+    "C17": dict(
+        engine="corr-pure",
+        technique="Coq proof by induction over the image list (fold of list intersection) + exhaustive model/implementation correspondence over a 4-name universe; regexes tied by differential testing on printed listings",
+        text=("Theorems over Model/VmStates.v for any number of images and any state lists: a vm state is listed iff every image "
+              "(and, for ramfile, the memory file) has it; no duplicates are introduced; on/off tags are exactly the entries with "
+              "non-zero/zero vm size and are disjoint. Compared with QCOW2VTBackend.show and RamfileBackend._show for ALL assignments "
+              "of subsets of a 4-name universe to 1..3 images on every run, and with the two regexes on printed qemu-img listings "
+              "with adversarial tags and sizes. The defect found (list.intersect / empty-first-image) was repaired in both backends "
+              "(fix: 94d77b5, 6f86aee); the pinned behaviour is kept as refutation Examples."),
+        note=COMMON_NOTE + "The qemu-img listing printer is harness glue (two column layouts, tags shorter than the tag column); Python's re is trusted.",
+        design="§5 C17"),
     "C19": dict(
         engine="corr-pure",
         technique="Coq proof by case analysis over the finite type product with universally quantified opaque values + exhaustive model/implementation correspondence over that product",
